@@ -4,7 +4,7 @@ from .._core.loop import Interrupt as CoreInterrupt
 from .._core.handler import __USIM_STATE__
 from .notification import Notification
 from .flag import Flag
-from .task import Task, TaskClosed, TaskCancelled, try_close
+from .task import Task, TaskClosed, TaskCancelled, CancelTask, try_close
 from .concurrent_exception import Concurrent
 
 
@@ -304,6 +304,13 @@ class Scope:
             privileged, concurrent = self._collect_exceptions()
             if privileged is not None or concurrent is not None:
                 raise privileged or concurrent
+            # our interrupt may have arrived at a break point of some cleanup
+            # (``finally: await ...``, an ``__aexit__`` that suspends) while the
+            # interrupt of an enclosing scope or task was unwinding our body:
+            # having replaced it we must not swallow it together with our own
+            displaced = getattr(exc_val, '__context__', None)
+            if isinstance(displaced, (CancelScope, CancelTask)) and displaced:
+                raise displaced
             # we handled our own and there was nothing else to propagate
             return False
         else:
